@@ -1587,6 +1587,8 @@ def selftest():
         if s["ph"] >= 2:
             s["i"] += 1
     w["cfg"]["dc"] += 1
+    if "dc0" in w["cfg"]:
+        w["cfg"]["dc0"] += 1          # (replay_walk takes the initial dtyi_calc from dc0)
     if not replay_walk(w):
         raise common.MachineryError("selftest: perturbed dtyi not rejected")
     # a group with distinct elements: perturbing the expectation of the SECOND element only must be noticed
